@@ -212,3 +212,82 @@ def rpc_pairing(env):
     return dict(name='rpc_pairing', validates='stream-per-request isolation of quinn and the pairing of request and response under concurrency (ASSUMED by the contracts); at-most-once handling under a fault after the handler ran',
                 cases=cases, failed=fails, ok=not fails, props=['C02'],
                 clause='each RPC yields its own response or an error; responses are never swapped; no request is delivered to a handler more than once')
+
+
+_HIST = {}
+
+
+def _history(env, swap):
+    key = (env['repo'], swap)
+    if key not in _HIST:
+        _HIST[key] = _run('history', dict(swap=swap), env)
+    return _HIST[key]
+
+
+def _replay_events(snapshot, events):
+    cur = set(snapshot)
+    for e in events:
+        if 'new' in e:
+            if e['new'] in cur:
+                return None
+            cur.add(e['new'])
+        else:
+            if e['lost'] not in cur:
+                return None
+            cur.discard(e['lost'])
+    return sorted(cur)
+
+
+def _history_check(env, name, props, clause, pred):
+    fails, cases = [], 0
+    for swap in (False, True):
+        got = _history(env, swap)
+        cases += 1
+        why = pred(got) if got.get('steps') else 'scenario did not run: %s' % str(got)[:200]
+        if why:
+            fails.append(dict(scenario='history', args=dict(swap=swap), expected=dict(violated=why), observed=got))
+    return dict(name=name, validates='a scripted history on real networks over loopback (A dials B naming B; A dials C\'s address naming B; A dials C unnamed; B dials A back; A disconnects C), once for each order of the two identities',
+                cases=cases, failed=fails, ok=not fails, props=props, clause=clause)
+
+
+def history_c03(env):
+    def pred(g):
+        s = g['steps']
+        if not (s[0]['ok'] and s[0]['returned_is_b'] and s[0]['a_lists_b_on_return']):
+            return 'a dial naming the identity at that address must succeed, return exactly it and have it listed on return'
+        if s[1]['ok'] or s[1]['a_lists_c'] or s[1]['c_lists_a']:
+            return 'a dial naming B that is answered by C must fail and neither side may list the other because of it'
+        if not (s[2]['ok'] and s[2]['returned_is_c'] and s[2]['a_lists_c_on_return']):
+            return 'an unnamed dial returns the identity of the party actually reached, which is listed on return'
+        return None
+    return _history_check(env, 'history_c03', ['C03'], 'a dial that names an identity reaches only that identity; any successful dial returns the identity reached, already in the connected set', pred)
+
+
+def history_c04(env):
+    def pred(g):
+        r = _replay_events(g['snapshot'], g['events_on_a'])
+        if r is None:
+            return 'events do not strictly alternate NewPeer / LostPeer per peer'
+        if r != g['final_listing_on_a']:
+            return 'snapshot + events replays to %s but the listing is %s' % (r, g['final_listing_on_a'])
+        if len(set(g['final_listing_on_a'])) != len(g['final_listing_on_a']):
+            return 'duplicate in the listing'
+        s = g['steps'][3]
+        if s['a_lists_b'] != 1 or s['b_lists_a'] != 1 or not s['rpc_a_to_b'] or not s['rpc_b_to_a']:
+            return 'after a mutual dial each side must list the other exactly once and RPCs must work both ways'
+        return None
+    return _history_check(env, 'history_c04_c05', ['C04', 'C05'], 'the event stream is an exact change log of the listing; a mutual dial leaves exactly one shared connection', pred)
+
+
+def history_c09(env):
+    def pred(g):
+        s = g['steps'][4]
+        if not s['ok'] or s['a_lists_c_after'] or s['rpc_to_c_after']:
+            return 'an explicit disconnect removes the peer at once and later RPCs to it fail'
+        lost = [e for e in g['events_on_a'] if e.get('lost') == g['ids']['c']]
+        if len(lost) != 1 or lost[0]['reason'] != 'Requested':
+            return 'an explicit disconnect announces exactly one LostPeer(peer, Requested)'
+        if not s['c_reports_a_lost']:
+            return 'the other side did not report the connection lost within a second'
+        return None
+    return _history_check(env, 'history_c09', ['C09'], 'an explicit disconnect removes the peer locally at once with LostPeer(Requested), later RPCs fail, and the other side reports the loss', pred)
